@@ -226,6 +226,28 @@ func (e *Engine) callExternal(fn *types.Func, recv Value, args []Value, cx *ast.
 		}
 		st.assume(mkForall([]*Term{x}, mkImplies(mkEq(sv, formatted), mkAnd(mkEq(err, nilT), mkEq(val, x))), [][]*Term{{formatted}}))
 		return VTuple{e.wrap(val, rt), VTerm{T: err, Typ: sig.Results().At(1).Type()}}
+	case "io.Writer.Write":
+		// ghost log of what has been written to a writer: nwr(w) writes so far; write i delivered the byte slice
+		// (wlog_arr(w,i), wlog_len(w,i)); a failed write is logged too (the caller stops on it)
+		if p, ok := args[0].(VSlice); ok && p.Arr != nil {
+			w := term(recv)
+			n := st.getMem("nwr:"+w.String(), mkApp("nwr0", SInt, w))
+			st.assume(mkEq(mkApp("wlog_len", SInt, w, n), p.Len))
+			st.assume(mkEq(mkApp("wlog_arr", p.Arr.Sort, w, n), p.Arr))
+			st.mem["nwr:"+w.String()] = mkArith("+", n, mkInt(1))
+			sig := fn.Type().(*types.Signature)
+			return VTuple{VTerm{T: e.fresh("nwritten", SInt), Typ: sig.Results().At(0).Type()}, VTerm{T: e.fresh("err", SRef), Typ: sig.Results().At(1).Type()}}
+		}
+	case "encoding/json.Marshal":
+		// the encoding of a value as an uninterpreted function of the value
+		if v, ok := args[0].(VTerm); ok {
+			sig := fn.Type().(*types.Signature)
+			sl := sig.Results().At(0).Type().Underlying().(*types.Slice)
+			tag := sortTag(v.T.Sort)
+			enc := VSlice{Arr: mkApp("jsonenc_arr_"+tag, arraySort(SInt, SInt), v.T), Len: mkApp("jsonenc_len_"+tag, SInt, v.T), Elem: sl.Elem()}
+			st.assume(mkCmp(">=", enc.Len, mkInt(0)))
+			return VTuple{enc, VTerm{T: e.fresh("err", SRef), Typ: sig.Results().At(1).Type()}}
+		}
 	case "encoding/csv.Writer.Write":
 		// buffered: what was written is pending until the next Flush
 		st.mem["csvpending:"+term(recv).String()] = tTrue
